@@ -65,5 +65,11 @@ HdrV == {[k |-> "clheader", line |-> HLine(ts)] : ts \in UNION {[1..n -> 1..11] 
 FaultDoc == <<80, 58, 32, 97, 10, 86, 58, 32, 49, 10, 10, 80, 58, 32, 98, 10, 86, 58, 32, 50, 10>>      \* "P: a\nV: 1\n\nP: b\nV: 2\n"
 SrcFaultV == {[k |-> "srcfault", doc |-> FaultDoc, at |-> a] : a \in {0, 3, 5, 14, 15, 16, 20, 21}}
 
-ASSUME Emit(SetToSeq(SrcFaultV) \o SetToSeq(HdrV) \o SetToSeq(VAcc \cup WildV \cup ByHashV \cup GetDscV \cup CompV \cup XzV \cup LoadFileV \cup FileV) \o SetToSeq(ArchsV))
+\* 10. blanks between a field name and its colon (dpkg skips them; deb822(5) does not write them): documents of two
+\* paragraphs, a continuation line and a repeated name in the second, with every blank run in front of every colon
+CBDoc(w) == <<80, 97, 99, 107, 97, 103, 101>> \o w \o <<COLON, SP, 97, LF>> \o <<68, 101, 115, 99>> \o w \o <<COLON, SP, 115, LF, SP, 108, LF, LF>>
+            \o <<80, 97, 99, 107, 97, 103, 101>> \o w \o <<COLON, SP, 98, LF>> \o <<88>> \o w \o <<COLON, LF>>
+ColonBlankV == {[k |-> "colonblank", doc |-> CBDoc(w), plain |-> CBDoc(<<>>)] : w \in {<<SP>>, <<TAB>>, <<SP, SP>>, <<SP, TAB>>}}
+
+ASSUME Emit(SetToSeq(ColonBlankV) \o SetToSeq(SrcFaultV) \o SetToSeq(HdrV) \o SetToSeq(VAcc \cup WildV \cup ByHashV \cup GetDscV \cup CompV \cup XzV \cup LoadFileV \cup FileV) \o SetToSeq(ArchsV))
 =============================================================================
